@@ -313,9 +313,9 @@ func genAction(t *rapid.T) Action {
 		}
 		return Action{K: "read"}
 	case 0:
-		return Action{K: "csel", Sel: gen.Sel(t, "sel")}
+		return Action{K: "csel", Sel: gen.SelArg(t, "sel")}
 	case 1:
-		return Action{K: "nsel", Sel: gen.Sel(t, "sel")}
+		return Action{K: "nsel", Sel: gen.SelArg(t, "sel")}
 	case 2, 3, 4:
 		incr := rapid.Bool().Draw(t, "incr")
 		adj := uint8(0)
@@ -352,6 +352,14 @@ func genAction(t *rapid.T) Action {
 					o.F[2] = ops.F32(float32(rapid.IntRange(0, 7).Draw(t, "rot")) / 8)
 				}
 				a.Draw = append(a.Draw, o)
+			}
+			if rapid.IntRange(0, 5).Draw(t, "longrun") == 0 {
+				// a run of one verb across the 16/32 repeat limits
+				k := rapid.SampledFrom(gen.DrawVerbs[2:16]).Draw(t, "runverb")
+				n := rapid.SampledFrom([]int{17, 18, 33, 40}).Draw(t, "runlen")
+				for i := 0; i < n; i++ {
+					a.Draw = append(a.Draw, gen.DrawOp(t, k, func(t *rapid.T, l string) float32 { return gen.Grid(t, l, 8) }, "r"))
+				}
 			}
 		}
 		return a
@@ -407,6 +415,10 @@ func TestPipelines(t *testing.T) {
 			a := genAction(t)
 			c.Actions = append(c.Actions, a)
 			switch a.K {
+			case "csel", "nsel":
+				if a.Sel >= 64 {
+					labels["selector-argument>=64"] = true
+				}
 			case "creg", "nreg":
 				if a.Incr {
 					sinceIncr = true
@@ -428,6 +440,9 @@ func TestPipelines(t *testing.T) {
 					labels["helper-error-path:CSEL-in-stop-range"] = true
 				}
 			case "path":
+				if len(a.Draw) > 16 {
+					labels["run-across-the-repeat-limit"] = true
+				}
 				for _, o := range a.Draw {
 					if (o.K == ops.AbsArcTo || o.K == ops.RelArcTo) && o.LargeArc != o.Sweep {
 						labels["arc-with-asymmetric-flags"] = true
